@@ -2,6 +2,6 @@ package fs
 
 import "os"
 
-func getLinkInfo(_ os.FileInfo) (uint64, bool) {
-	return 0, false
+func getLinkInfo(_ os.FileInfo) (inodeKey, bool) {
+	return inodeKey{}, false
 }
